@@ -423,13 +423,19 @@ fn run_emt(c: &str, m: &str, toks: &[&str]) -> String {
 fn run_dec(trap: &str, bytes: &[u8]) -> String {
     use saphyr::{YAMLDecodingTrap, YamlDecoder};
     use tree::Dump;
+    // the callback records what it was shown: the bytes of the malformed sequence, read from the buffer
+    // "starting at the malformation" (so a wrong buffer or length shows in the decoded text)
     fn cb(
-        _malformed_len: u8,
+        malformed_len: u8,
         _bytes_after: u8,
-        _input: &[u8],
+        input: &[u8],
         output: &mut String,
     ) -> std::ops::ControlFlow<std::borrow::Cow<'static, str>> {
-        output.push('?');
+        output.push('<');
+        for b in input.iter().take(malformed_len as usize) {
+            output.push_str(&format!("{b:02x}"));
+        }
+        output.push('>');
         std::ops::ControlFlow::Continue(())
     }
     let trap = match trap {
